@@ -62,10 +62,10 @@ TEXT = {
         "level_note": _COMMON_NOTE + " Bounded stand-in: c09_event feeds ~480 extreme-but-valid events (waveform lengths around the calibration delay, i16 extremes, full ring, sent/over-threshold masks that differ) through try_from_banks, avalanches and vertex. NOT decided by proof: the floating-point pipeline (deconvolution, clustering, fitting, vertexing) and the generic, HashMap-using body of try_from_banks itself; the call sites of the unwraps are not verified, only the callee-side invariants.",
     },
     "C10": {
-        "technique": "Verus contract on the anode-wire arm cut out of MainEvent::try_from_banks, checked against the proved contracts of the ADC decoder and the wire map; complete Kani proofs of the two calibration expressions; bounded native table of rejections",
+        "technique": "Verus contracts on the four match arms (and the final timestamp expression) cut out of MainEvent::try_from_banks, checked against the proved contracts of the decoders and maps; complete Kani proofs of the two calibration expressions; bounded native table of rejections",
         "design_ref": "DESIGN.md §9.9",
-        "level_text": "For one anode-wire bank, every run number and every slot state: a payload the ADC decoder rejects is rejected and changes nothing; a packet without samples is ignored; a barrel-veto channel, a bank name that disagrees with the packet's (board, channel), a board or run the wire map does not know, an occupied slot, a missing baseline / gain / delay calibration each give an error and change nothing; otherwise the calibrated waveform (if any sample is left after the run's delay) is stored in exactly the slot TpcWirePosition::try_new assigns to the packet's (board, channel) and every other slot is unchanged. The calibration expression is proved (Kani, every sample and baseline, three gains) to be (sample - baseline) x gain for wires and pads.",
-        "level_note": _COMMON_NOTE + " The arm is a fragment (rules R11, `continue` -> `return Ok(())` inside the synthesised function, `?` desugared); callee contracts are copied from units adc and wiremap where they are proved (`contract_from`); the calibration tables are uninterpreted functions of (run, wire), the skip/map/collect chain an opaque function `calibrated` (its integer part is the Kani harness). Error payload types of the other arms are opaque placeholders. NOT decided by proof: the pad arm, the TRG arm and the grouping of chunks (HashMap) -- those clauses are covered by the bounded native table c10_table only; which error is reported when several apply is deliberately not part of the contract.",
+        "level_text": "Proved for every run number, payload and slot state. Anode-wire bank: a payload the ADC decoder rejects is rejected; a packet without samples is ignored; a barrel-veto channel, a bank name that disagrees with the packet's (board, channel), a board or run the wire map does not know, an occupied slot, a missing baseline / gain / delay each give an error and change nothing; otherwise the calibrated waveform (if any sample is left after the run's delay) is stored in exactly the slot TpcWirePosition::try_new assigns to the packet's (board, channel), all other slots unchanged. Pad channel of a reassembled packet: the same with TpcPadPosition::try_new(board, chip, channel), the 32 x 576 slot array, and the waveform block of that channel. PadWing bank: a chunk the decoder rejects or whose board differs from the bank name is rejected, otherwise it is appended to the group of its (board, chip) and nothing else changes. TRG bank: malformed or second TRG bank rejected, otherwise the timestamp is bytes 8..12 of the packet; no TRG bank at the end is an error. The calibration expression is proved (Kani, every sample and baseline, three gains) to be (sample - baseline) x gain for wires and pads.",
+        "level_note": _COMMON_NOTE + " The arms are fragments (rule R11; `continue` -> `return Ok(())` inside the synthesised function, `?` desugared); callee contracts are copied from the units where they are proved (`contract_from` adc, wiremap, pwb, padmap, chunk, trg); calibration tables are uninterpreted functions of (run, element), the skip/map/collect chain an opaque function `calibrated` (its integer part is the Kani harness), the HashMap of chunk groups an opaque map with one assumed leaf (entry/or_default/push). Error payload types of the other arms are opaque placeholders in each unit. NOT decided by proof: the two loops that drive the arms (`for .. in banks`, `for chunks in map.into_values()`, `for &channel_id in packet.channels_sent()`) and the bank-name parser's dispatch -- that each arm runs once per bank / group / sent channel with the packet's own board and chip is read off the text and covered by the bounded native table c10_table; which error is reported when several apply is deliberately not part of the contract.",
     },
     "C13": {
         "technique": "Verus contract on the real contiguous_ranges (maximal cyclic runs, seam adjacency) + complete Kani proof of the induction-matrix entry",
